@@ -17,6 +17,7 @@ import BespokeVerif.Model.Macro
 import BespokeVerif.Model.Config
 import BespokeVerif.Model.Scan
 import BespokeVerif.Model.Regex
+import BespokeVerif.Model.Split
 open Lean BV
 
 namespace Drv
@@ -119,6 +120,12 @@ def opFields (j : Json) : R Json := do
   let allFit := fs.all fun f => decide (Fits f.value f.size)
   let spec : Json := if allFit then Json.mkObj [("bytes", jNats (specBytes fs))] else jErr .fieldOverflow
   return Json.mkObj [("impl", jBytesRes (getBytes fs)), ("spec", spec)]
+
+/-- op "split": comma splitting of a value / operand list -/
+def opSplit (j : Json) : R Json := do
+  let text ← str j "text"
+  return Json.mkObj [("impl", Json.arr ((splitCommas text.toList).map fun it => Json.str (String.ofList it)).toArray),
+                     ("spec", Json.arr ((splitPlain text.toList).map fun it => Json.str (String.ofList it)).toArray)]
 
 def parseEnv (j : Json) : R (String → Option Int) := do
   match fldOpt j "env" with
@@ -605,6 +612,7 @@ def dispatch (j : Json) : R Json := do
   | "validate" => opValidate j
   | "scan" => opScan j
   | "classify" => opClassify j
+  | "split" => opSplit j
   | "require" => opRequire j
   | "ping" => pure (Json.mkObj [("pong", Json.bool true)])
   | _ => throw s!"unknown op {op}"
